@@ -383,10 +383,11 @@ def deep_sym(v, depth=4, _seen=None):
 # --------------------------------------------------------------------------------------- engine
 
 class PathResult:
-    __slots__ = ('pc', 'kind', 'value', 'decisions', 'assumes')
+    __slots__ = ('pc', 'kind', 'value', 'decisions', 'model')
 
-    def __init__(self, pc, kind, value, decisions):
+    def __init__(self, pc, kind, value, decisions, model=None):
         self.pc, self.kind, self.value, self.decisions = pc, kind, value, decisions
+        self.model = model
 
 
 class Engine:
@@ -395,6 +396,7 @@ class Engine:
     def __init__(self, branch_timeout_ms=250, max_paths=20000, seed=0, max_decisions=400):
         self.solver = z3.Solver()
         self.solver.set('timeout', branch_timeout_ms)
+        self.branch_timeout_ms = branch_timeout_ms
         self.solver.set('random_seed', seed)
         self.queries = 0
         self.query_time = 0.0
@@ -404,6 +406,9 @@ class Engine:
         self.paths = 0
         self.trace = []
         self.pc = []
+        self.model = None
+        self._last_model = None
+        self.pos = 0
         self.vars = {}          # name -> z3 const, per path (deterministic names)
         self._counter = {}
         self.on_path_end = []   # callbacks (generator threads cleanup)
@@ -442,25 +447,62 @@ class Engine:
         return self.new_str('_' + tag)
 
     # ---- path condition
-    def add(self, cond):
+    # `self.model` is a model of the current path condition whenever it is not None; it lets most
+    # feasibility questions be answered by evaluation instead of a solver call.
+    def _holds(self, cond):
+        if self.model is None:
+            return None
+        try:
+            v = self.model.eval(cond, model_completion=True)
+        except z3.Z3Exception:
+            return None
+        if z3.is_true(v):
+            return True
+        if z3.is_false(v):
+            return False
+        return None
+
+    def add(self, cond, check=True):
         cond = _simp(cond)
         if z3.is_true(cond):
             return
         self.pc.append(cond)
         self.solver.add(cond)
+        if self.pos < len(self.trace):
+            return                      # replaying a known-feasible prefix
+        if self._holds(cond) is True:
+            return
+        if not check:
+            self.model = None
+            return
+        r = self._check(None)
+        if r == 'unsat':
+            raise Abort('infeasible')
+        # 'sat' refreshed self.model; 'unknown' left it None
 
     def _check(self, cond):
+        """satisfiability of pc (+ cond); on sat the model is kept in self._last_model"""
         self.queries += 1
         t = time.time()
-        self.solver.push()
-        self.solver.add(cond)
+        self._last_model = None
+        if cond is not None:
+            self.solver.push()
+            self.solver.add(cond)
         r = str(self.solver.check())
-        self.solver.pop()
+        if r == 'sat':
+            self._last_model = self.solver.model()
+            if cond is None:
+                self.model = self._last_model
+        elif cond is None:
+            self.model = None
+        if cond is not None:
+            self.solver.pop()
         if r == 'unknown' and self.cvc5_branch:
             from . import solve
-            if solve._uses_strings(self.pc + [cond]):
+            q = self.pc + ([cond] if cond is not None else [])
+            if solve._uses_strings(q):
                 self.cvc5_branch_queries += 1
-                r = solve._WORKER.check(self.pc + [cond], self.cvc5_branch_timeout).status
+                r = solve._WORKER.check(q, self.cvc5_branch_timeout).status
         self.query_time += time.time() - t
         return r
 
@@ -471,28 +513,52 @@ class Engine:
         if z3.is_false(cond):
             return False
         if self.pos < len(self.trace):
-            choice = self.trace[self.pos][0]
-        else:
-            if len(self.trace) >= self.max_decisions:
-                raise BoundHit('more than %d decisions on one path' % self.max_decisions)
+            ent = self.trace[self.pos]
+            choice = ent[0]
+            self.pos += 1
+            c = cond if choice else z3.Not(cond)
+            self.pc.append(c)
+            self.solver.add(c)
+            if self.pos == len(self.trace):
+                self.model = ent[2]     # model of the flipped side, found when it was proven sat
+            return choice
+        if len(self.trace) >= self.max_decisions:
+            raise BoundHit('more than %d decisions on one path' % self.max_decisions)
+        h = self._holds(cond)
+        if h is None:
             t = self._check(cond)
+            mt = self._last_model
             f = self._check(z3.Not(cond))
+            mf = self._last_model
             if t == 'unknown' or f == 'unknown':
                 self.unknown_branches += 1
             t, f = t != 'unsat', f != 'unsat'
-            if t and f:
-                self.trace.append([True, True])
-                choice = True
-            elif t:
-                self.trace.append([True, False])
-                choice = True
-            elif f:
-                self.trace.append([False, False])
-                choice = False
-            else:
+            if not t and not f:
                 raise Abort('infeasible path')
+        elif h:
+            t, mt = True, self.model
+            r = self._check(z3.Not(cond))
+            mf = self._last_model
+            if r == 'unknown':
+                self.unknown_branches += 1
+            f = r != 'unsat'
+        else:
+            f, mf = True, self.model
+            r = self._check(cond)
+            mt = self._last_model
+            if r == 'unknown':
+                self.unknown_branches += 1
+            t = r != 'unsat'
+        if t:
+            self.trace.append([True, f, mf])
+            choice, self.model = True, mt
+        else:
+            self.trace.append([False, False, None])
+            choice, self.model = False, mf
         self.pos += 1
-        self.add(cond if choice else z3.Not(cond))
+        c = cond if choice else z3.Not(cond)
+        self.pc.append(c)
+        self.solver.add(c)
         return choice
 
     def assume(self, cond):
@@ -502,10 +568,28 @@ class Engine:
         if z3.is_false(c):
             raise Abort('assume false')
         self.add(c)
-        if self.pos >= len(self.trace):
-            # only check satisfiability on the frontier (cheap, avoids dead exploration)
-            if self._check(z3.BoolVal(True)) == 'unsat':
-                raise Abort('assumption infeasible')
+
+    def refute(self, conds, timeout_ms=3000):
+        """is  pc AND conds  satisfiable?  -> ('sat', model) | ('unsat', None) | ('unknown', None)
+        (incremental: the path condition is already asserted)"""
+        conds = [_simp(c) for c in conds]
+        if any(z3.is_false(c) for c in conds):
+            return 'unsat', None
+        if self.model is not None and all(self._holds(c) is True for c in conds):
+            return 'sat', self.model
+        self.queries += 1
+        t = time.time()
+        self.solver.push()
+        self.solver.set('timeout', timeout_ms)
+        try:
+            self.solver.add(*conds)
+            r = str(self.solver.check())
+            m = self.solver.model() if r == 'sat' else None
+        finally:
+            self.solver.set('timeout', self.branch_timeout_ms)
+            self.solver.pop()
+        self.query_time += time.time() - t
+        return r, m
 
     def choose(self, n, name='choice'):
         """nondeterministic concrete choice in range(n) (forking)"""
@@ -524,6 +608,8 @@ class Engine:
         while True:
             self.pos = 0
             self.pc = []
+            self.model = None
+            self.path_model = None
             self.vars = {}
             self._counter = {}
             self.solver.push()
@@ -532,7 +618,12 @@ class Engine:
             res = None
             try:
                 try:
+                    if not self.trace:
+                        self._check(None)       # model of the empty path condition
                     res = ('ok', fn())
+                    if self.model is None:
+                        self._check(None)
+                    self.path_model = self.model
                 except Abort:
                     res = None
                 except BoundHit as b:
@@ -551,7 +642,8 @@ class Engine:
                 self.solver.pop()
             if res is not None:
                 self.paths += 1
-                yield PathResult(list(self.pc), res[0], res[1], [t[0] for t in self.trace[:self.pos]])
+                yield PathResult(list(self.pc), res[0], res[1], [t[0] for t in self.trace[:self.pos]],
+                                 self.path_model)
                 if self.paths >= self.max_paths:
                     yield PathResult([], 'bound', 'path budget %d exhausted' % self.max_paths, [])
                     return
@@ -559,7 +651,7 @@ class Engine:
                 self.trace.pop()
             if not self.trace:
                 return
-            self.trace[-1] = [not self.trace[-1][0], False]
+            self.trace[-1] = [not self.trace[-1][0], False, self.trace[-1][2]]
 
 
 _fresh = itertools.count()
